@@ -1,5 +1,6 @@
 (* C03, rtpmjpeg — statements only *)
 From GVL Require Import NList Rtp.
+From GVG Require Import Consts.
 From GV_mjpeg Require Import Model Proofs.
 Open Scope N_scope.
 
@@ -22,6 +23,19 @@ Theorem C03_mjpeg_roundtrip : forall max seq img s data ty w h tabs d,
     dec_run d ps = (d', repeat DMore (length ps - 1) ++ [DFrame img']) /\ dfrags d' = [] /\ dfsize d' = 0.
 Proof. exact roundtrip. Qed.
 Print Assumptions C03_mjpeg_roundtrip.
+
+(* ... and that image parses - with the parser the encoder itself uses - to the same frame type and
+   dimensions, no restart interval, the same quantisation tables (numbered 0..) and the same
+   entropy-coded data (plus an end-of-image marker if the input had none): the property's wording. *)
+Theorem C03_mjpeg_roundtrip_parsed : forall max seq img s data ty w h tabs d,
+  valid_image max img s data ty w h tabs ->
+  exists ps seq' img' d' data', enc max seq img = EOk ps seq' /\
+    dec_run d ps = (d', repeat DMore (length ps - 1) ++ [DFrame img']) /\
+    jparse img' = JOk (mkP (Some (ty, w, h)) None (numbered tabs)) data' /\
+    map snd (numbered tabs) = tabs /\
+    (data' = data \/ data' = data ++ [255; jpeg_marker_eoi]).
+Proof. exact roundtrip_parsed. Qed.
+Print Assumptions C03_mjpeg_roundtrip_parsed.
 
 (* consecutive images through one encoder/decoder pair *)
 Theorem C03_mjpeg_roundtrip_seq : forall max frames imgs', Forall2 (valid_at max) frames imgs' ->
